@@ -361,4 +361,15 @@ example : CoveredHistory Gen.minChunksPerRange exHist := by
 example : (finished ⟨fun _ => Hash.zero, fun _ => Hash.zero, fun _ => Hash.zero, fun _ _ => Hash.zero⟩ ⟨1000, 10⟩
     Defrag.allowNext World.init exHist).sess.metrics.totalBytes = 51 := by decide
 
+/-- the hypothesis of `C11_repeat_free_lookup` on the lookup interface is satisfiable: an interface that answers every query
+    in full (as a store holding the whole content in one xorb does) meets it for every `minN ≤ 1` -/
+example : ∀ (h : Hash) (rest : List Hash), True →
+    ∃ n s, (fun hs : List Hash => some (hs.length, (⟨⟨1, 2, 3, 4⟩, 0, 0, 0, hs.length⟩ : Shard.Seg))) (h :: rest) = some (n, s) ∧
+      1 ≤ n ∧ 1 ≤ n ∧ n ≤ rest.length + 1 :=
+  fun h rest _ => ⟨rest.length + 1, _, rfl, by omega, by omega, by omega⟩
+
+/-- and `firstPass` with that interface over a three-chunk call leaves the answer at slot 0 -/
+example : firstPass (fun hs => some (hs.length, ⟨⟨1, 2, 3, 4⟩, 0, 0, 0, hs.length⟩)) 4 (List.replicate 3 exC) (List.replicate 3 none)
+    = [some (3, ⟨⟨1, 2, 3, 4⟩, 0, 0, 0, 3⟩), none, none] := by decide
+
 end Xet.Dedup
